@@ -151,6 +151,7 @@ func emitDocQ(out *Out, g *DocGen, root *ANode, p *Presentation, hs HSpec, maxQ 
 func genC02(out *Out, r *Rng, tier string, n int, shard int) {
 	for i := 0; i < n; i++ {
 		g := NewDocGen(r, 1+r.Intn(3))
+		g.nativeInStr = true
 		root := g.node(g.sch.Root, 0, r.Bool())
 		emitDocQ(out, g, root, randomPresentation(r), hPoseidon(), 40)
 		emitSmtStream(out, r, 8+r.Intn(40))
